@@ -81,7 +81,7 @@ def run(ck):
     bad1["steps"][-1]["upd"]["S"][s] = [m, max(e - 1, 0)] if m else [m, e]
   bad2 = copy.deepcopy(base)           # statistics decay weight wrong at step 2
   bad2["steps"][1]["stat"][1] = [3, 2]
-  sub = core.Check(ck.pid, ck.level, ck.tier, ck.seed); sub.work = ck.work
+  sub = core.Check(ck.pid, ck.level, ck.tier, ck.seed, parent=ck)
   _, res = replay(sub, [bad1, bad2], "selftest", geos=GEOS[:1])
   ck.selftest("R: wrong update coefficient is flagged", bool(res[0]["mismatches"]))
   ck.selftest("R: wrong statistics coefficient is flagged", bool(res[1]["mismatches"]))
